@@ -137,6 +137,8 @@ pub struct Report {
     pub assumptions: Vec<String>,
     pub machinery_errors: Vec<String>,
     pub required_ok: Vec<(String, String)>,
+    /// vacuity guards: (job, counter or "Kind:ok" outcome) that must be > 0 when the job completes
+    pub required_counters: Vec<(String, String)>,
 }
 
 impl Report {
@@ -165,9 +167,13 @@ impl Report {
             ],
             machinery_errors: vec![],
             required_ok: vec![],
+            required_counters: vec![],
         }
     }
 
+    pub fn require_counter(&mut self, job: &str, counter: &str) {
+        self.required_counters.push((job.to_string(), counter.to_string()));
+    }
     /// vacuity guard: this op kind must have been accepted at least once in job `job`
     pub fn require_ok(&mut self, job: &str, kind: &str) {
         self.required_ok.push((job.to_string(), kind.to_string()));
@@ -252,6 +258,11 @@ impl Report {
                             self.machinery_errors.push(format!("vacuity: op kind {kind} was never accepted in job {job}"));
                         }
                     }
+                    for (job, cn) in self.required_counters.clone() {
+                        if job == r.job && r.counters.get(&cn).copied().unwrap_or(0) == 0 && r.outcomes.get(&cn).copied().unwrap_or(0) == 0 {
+                            self.machinery_errors.push(format!("vacuity: counter {cn} is 0 in job {job}"));
+                        }
+                    }
                     self.rules.push(format!("{}: BFS over every enabled operation of every reached state to depth {} (states de-duplicated by full chain storage + block time + ghost ledger)", r.job, r.completed_depth));
                     self.jobs.push(serde_json::to_value(&r).unwrap());
                     self.absorb(&j.name, viols, keyed, &known);
@@ -268,6 +279,11 @@ impl Report {
                     }
                     let viols = std::mem::take(&mut r.viols);
                     let keyed = std::mem::take(&mut r.keyed);
+                    for (job, cn) in self.required_counters.clone() {
+                        if job == r.job && r.counters.get(&cn).copied().unwrap_or(0) == 0 && r.outcomes.get(&cn).copied().unwrap_or(0) == 0 {
+                            self.machinery_errors.push(format!("vacuity: counter {cn} is 0 in job {job}"));
+                        }
+                    }
                     self.rules.push(format!("{}: {}", r.job, r.rule));
                     self.jobs.push(serde_json::to_value(&r).unwrap());
                     self.absorb(&j.name, viols, keyed, &known);
